@@ -113,6 +113,11 @@ func init() {
 		}
 		rootIDs := layout.RootCAIDs()
 		var constraints []intoto.CertificateConstraint
+		if b, _ := a["empty_not_nil"].(bool); b {
+			// what `"cert_constraints": []` in a layout file decodes to: an EMPTY, non-nil list — a step
+			// without constraints accepts no certificate (seeded change c07-empty-constraint-list-accepts)
+			constraints = []intoto.CertificateConstraint{}
+		}
 		each := []any{}
 		for _, cv := range a["constraints"].([]any) {
 			c := toConstraint(cv)
@@ -251,12 +256,12 @@ func runC07(r *Runner, tier string, rng *Rng) {
 			constraints = append(constraints, c)
 		}
 		r.St.Count("chain:" + chain)
-		batch = append(batch, Case{Op: "certcheck", Args: map[string]any{"chain": chain, "leaf": leaf, "constraints": constraints, "cert": info, "root_ids": rootIDs},
+		batch = append(batch, Case{Op: "certcheck", Args: map[string]any{"chain": chain, "leaf": leaf, "constraints": constraints, "cert": info, "root_ids": rootIDs, "empty_not_nil": len(constraints) == 0 && rng.Bool()},
 			Feat: fmt.Sprintf("%s:nc%d", feat, nc)})
 		if len(batch) >= 200 {
 			flush()
 		}
 	}
 	flush()
-	r.St.Rule = "real certificates minted with crypto/x509: 13 chain shapes (direct, intermediates in the layout / from the caller / mixed two-level / missing, a foreign intermediate or the foreign root itself supplied by the caller, expired and not-yet-valid leaf, foreign root, expired intermediate, non-CA issuer, second layout root) x attribute lists (absent, one, several, duplicated) x 0-3 constraints per step in the forms wildcard, empty, nil, [\"\"], exact, subset, superset, permuted, duplicated, unrelated; compared: each constraint's verdict, the step verdict, and VerifyCertificateTrust against the ground truth of how the chain was built. Class = (chain shape, constraint forms, verdicts)."
+	r.St.Rule = "real certificates minted with crypto/x509: 13 chain shapes (direct, intermediates in the layout / from the caller / mixed two-level / missing, a foreign intermediate or the foreign root itself supplied by the caller, expired and not-yet-valid leaf, foreign root, expired intermediate, non-CA issuer, second layout root) x attribute lists (absent, one, several, duplicated) x 0-3 constraints per step (no constraints both as a nil and as an empty list) in the forms wildcard, empty, nil, [\"\"], exact, subset, superset, permuted, duplicated, unrelated; compared: each constraint's verdict, the step verdict, and VerifyCertificateTrust against the ground truth of how the chain was built. Class = (chain shape, constraint forms, verdicts)."
 }
